@@ -28,7 +28,7 @@ class Check(FormulaCheck):
             '(all shapes up to 4x4 quick / 8x8 thorough) of distinct numbers or text, as literal, variable or range value; MATCH types 0/1/-1 on '
             'ascending/descending arrays with duplicates, zeros, negatives, present/absent/below/above lookups, wildcards. non-trivial = compared '
             'with the model; distinct = distinct (function, array, indices, injection).')
-    ASSUMPTIONS = ('the two-index form on a 1-D array may read it as a row or as a column (or refuse), but must not answer anything neither reading addresses; area_num is unspecified; MATCH arrays are homogeneous (INDEX arrays also mix numbers, text, logicals and date-times); "[" is excluded from lookup text',
+    ASSUMPTIONS = ('the two-index form on a 1-D array may read it as a row or as a column (or refuse), but must not answer anything neither reading addresses; area_num is unspecified; MATCH arrays are homogeneous (INDEX arrays also mix numbers, text, logicals and date-times)',
                    'fractional indices need only give an error or the truncated position',
                    'INDEX with every given index 0/omitted may return the whole array or an error',
                    'MATCH types 1/-1: any position holding the qualifying extreme value is accepted (duplicates)')
@@ -102,6 +102,12 @@ class Check(FormulaCheck):
         g = self.ev(f)
         rec.nt((f, repr(arr) if how != 'lit' else ''))
         rec.cov('injection', how)
+        if rnd.random() < 0.2:
+            # a position is a position whether it is held as an int or as a float (4/2 is the second one)
+            f2 = 'INDEX(%s,%s%s)' % (a_txt, 'v_r' if r is not None else '', ',v_c' if c is not None else '')
+            g2 = self.ev(f2, v_r=float(r) if r is not None else None, v_c=float(c) if c is not None else None)
+            same = (self.is_err(g) and self.is_err(g2)) or canon(g2) == canon(g)
+            self.expect('C18/INDEX:position-held-as-float', same, formula=f, with_float_positions=g2, with_int_positions=g, array=arr)
         self.expect('C18/INDEX-mutates-its-array', canon(arr) == snapshot, formula=f, array=arr)
         R = len(arr)
         C = len(arr[0]) if twod else None
@@ -302,6 +308,8 @@ class Check(FormulaCheck):
                 rec.nt(('choose', i, tuple(vals)))
                 if 1 <= i <= n:
                     self.expect('C18/CHOOSE:wrong-value', g == vals[i - 1] and type(g) is type(vals[i - 1]), index=i, values=vals, got=g)
+                    g2 = self.ev('CHOOSE(v_i,%s)' % ','.join(hx.varname(k, 'it') for k in range(n)), v_i=float(i))
+                    self.expect('C18/CHOOSE:position-held-as-float', g2 == vals[i - 1] and type(g2) is type(vals[i - 1]), index=float(i), values=vals, got=g2)
                 else:
                     self.expect('C18/CHOOSE:index-outside-yields-a-value', self.is_err(g), index=i, values=vals, got=g)
             rec.sample({'formula': f})
